@@ -80,7 +80,7 @@ def _check_reuse(case, rec):
       states.append(s)
     H.set_data(d, states)
     mjw.forward(m, d)
-    of = H.overflow(d)
+    of = H.overflow_fwd(d)
     if (of & int(OT.NEFC | OT.NJMAX_NNZ | OT.BROADPHASE | OT.NARROWPHASE | OT.NVMAX)).any():
       rec.inconclusive += 1
       return
@@ -88,7 +88,7 @@ def _check_reuse(case, rec):
     fresh = H.make_data(mjm, nworld=n, nconmax=150, njmax=600)
     H.set_data(fresh, states)
     mjw.forward(m, fresh)
-    qfresh, offresh = fresh.qacc.numpy(), H.overflow(fresh)
+    qfresh, offresh = fresh.qacc.numpy(), H.overflow_fwd(fresh)
     for w in range(n):
       mjd = mujoco.MjData(ref)
       H.set_mjd(mjd, states[w])
